@@ -382,3 +382,71 @@ def impl_flat(case):
             res = [1, classify_exc(ex)]
         out.append([world.items, res, state_int(model)])
     return [1, out]
+
+
+# ------------------------------------------------------------------ C04: survivor vs fresh machine, every class
+def _call(loop, f, *a, **k):
+    import inspect
+    r = f(*a, **k)
+    if inspect.isawaitable(r):
+        r = loop.run_until_complete(r)
+    return r
+
+
+def impl_survivor(case):
+    """case: flat machine, deterministic env (bycb), history, 'cls', 'queued', 'crash_cb', 'crash_exn', 'split'.
+    Machine A runs history[:split] where the FIRST invocation of callback crash_cb raises; then both A (the
+    survivor) and a fresh machine B of the same class placed in A's state run history[split:].  Returns the
+    continuation observations of A and B (they must be equal) and what the crashing call did."""
+    import asyncio
+    cname = case['cls']
+    loop = asyncio.new_event_loop()
+    try:
+        def make(crashing):
+            env = dict(default=case['env'].get('default', True), bypos={}, bycb=dict(case['env'].get('bycb', {})))
+            world = World(env, case['machine']['send'])
+            world.state_of = state_int
+            world.perform = lambda a: None
+            fired = [not crashing]
+            base_reply = world.reply
+
+            def reply(cb):
+                ret, exn, acts = base_reply(cb)
+                if cb == case['crash_cb'] and not fired[0]:
+                    fired[0] = True
+                    return (ret, tuple(case['crash_exn']), [])
+                return (ret, None, [])
+            world.reply = reply
+            world.disarm = lambda: fired.__setitem__(0, True)
+            kw = dict(class_kwargs(cname))
+            kw['queued'] = case.get('queued', False)
+            machine, model = build_machine(case, world, cls=get_class(cname), extra_kwargs=kw)
+            world.model_ids[id(model)] = 0
+            world.current_model = model
+            return world, machine, model
+
+        def run(world, model, hist):
+            out = []
+            for k, e, a in hist:
+                tok = Token(a)
+                world.items = []
+                try:
+                    r = _call(loop, model.trigger, 'e%d' % e, tok, k=tok)
+                    res = [0, bool(r)]
+                except BaseException as ex:  # noqa
+                    res = [1, classify_exc(ex)]
+                out.append([[it[:2] + it[3:] for it in world.items], res, state_int(model)])
+            return out
+        wa, ma, a = make(True)
+        pre = run(wa, a, case['history'][:case['split']])
+        wa.disarm()
+        wb, mb, b = make(False)
+        _call(loop, mb.set_state, 's%d' % state_int(a), b) if False else mb.set_state('s%d' % state_int(a), b)
+        cont_a = run(wa, a, case['history'][case['split']:])
+        cont_b = run(wb, b, case['history'][case['split']:])
+        extra = []
+        if hasattr(ma, '_transition_queue'):
+            extra.append(len(ma._transition_queue))
+        return dict(pre=pre, survivor=cont_a, fresh=cont_b, leftovers=extra)
+    finally:
+        loop.close()
